@@ -40,8 +40,8 @@ CLAIMED['C01'] = dict(
          'packBits_spec + unpack_pack (LSB-first, zero padded, any length), exception layout, dispatch tables regenerated from the '
          'source and checked by decide; three known findings proved as counterexamples (FIFO count, read-file-record response layout, '
          'multi-word diagnostic request); enc_readFileRecord_req_conforms / enc_writeFileRecord_req_conforms / enc_writeFileRecord_resp_conforms / '
-         'dec_readFileRecord_req_conforms (file-record PDUs, every list of sub-requests, by induction). Write-file-record decoding and '
-         'device-identification PDUs are covered by the correspondence harness (and C20).',
+         'dec_readFileRecord_req_conforms / dec_writeFileRecord_req_conforms / dec_writeFileRecord_resp_conforms (file-record PDUs, every list '
+         'of sub-requests, by induction). Device-identification PDUs are covered by the correspondence harness (and C20).',
     design='6/C01', technique='Lean 4 proof of codec conformance to a spec transcription + differential correspondence',
     note='Spec/PduSpec.lean is a transcription of Modbus Application Protocol v1.1b3 section 6-7 (trusted).')
 CLAIMED['C02'] = dict(
